@@ -203,3 +203,37 @@ func VerifH_CloseAfterTermination() {
 	vrt.Assert(vrt.Unfinished() == 0, "no library goroutine is left behind")
 	vrt.Cover("close-after-term-end")
 }
+
+// VerifH_CloseRacesNewStream: a packet for the next stream is already on the wire (the reader
+// is waiting for that stream to exist) when NewClientStream and Close are issued
+// concurrently. Whatever the order, Close returns, the transport is closed once, the new
+// stream - if one was handed out - is cancelled, and no goroutine is left (in particular the
+// reader is not left delivering a message to a stream nobody manages).
+func VerifH_CloseRacesNewStream() {
+	tr := &hx.Transport{}
+	m := NewWithOptions(tr, Options{SoftCancel: vrt.Bool("soft")})
+	first := vrt.Bool("afterAFirstStream")
+	next := uint64(1)
+	if first {
+		s1, err := m.NewClientStream(hx.NewCtx(), "one")
+		vrt.Assert(err == nil, "first stream starts")
+		vrt.Assert(s1.Close() == nil, "first stream closes")
+		next = 2
+	}
+	tr.Feed(hx.Pkt(drpcwire.KindMessage, next, 1, false, []byte{7}))
+	vrt.Quiesce()
+	var st *drpcstream.Stream
+	var serr error
+	sdone, cdone := false, false
+	go func() { st, serr = m.NewClientStream(hx.NewCtx(), "next"); sdone = true }()
+	go func() { _ = m.Close(); cdone = true }()
+	vrt.Quiesce()
+	vrt.Assert(cdone, "Close returns while a NewClientStream races with it")
+	vrt.Assert(sdone, "the racing NewClientStream returns")
+	vrt.Assert(tr.Closes == 1, "the transport is closed exactly once")
+	if serr == nil && st != nil {
+		vrt.Assert(hx.IsClosedCh(st.Context().Done()), "a stream handed out while closing is cancelled")
+	}
+	vrt.Assert(vrt.Unfinished() == 0, "no library goroutine is left behind")
+	vrt.Cover("close-races-newstream-end")
+}
